@@ -449,6 +449,10 @@ func vfH_dial_logic() {
 		tc.cut = len(tc.in)
 	}
 	vfAllocBound(12000)
+	cfgServerName := ""
+	if in.d.TLSClientConfig != nil {
+		cfgServerName = in.d.TLSClientConfig.ServerName // as configured by the application
+	}
 	if in.second {
 		// an earlier dial to another host with the same Dialer: whatever it did to
 		// the shared configuration must not leak into the dial under test
@@ -706,8 +710,8 @@ func vfH_dial_logic() {
 			if tlsByLib {
 				ok := false
 				wantName := vfHostNoPort(in.host)
-				if in.d.TLSClientConfig != nil && in.d.TLSClientConfig.ServerName != "" {
-					wantName = in.d.TLSClientConfig.ServerName
+				if cfgServerName != "" {
+					wantName = cfgServerName
 				}
 				for _, r := range vfTLSLog {
 					verified := r.verified == wantName || r.skipVerify
